@@ -39,20 +39,27 @@ Definition pseudo_str (p : pseudo) : str :=
   | PTime => ms_ "<class 'json_to_models.dynamic_typing.string_datetime.IsoTimeString'>"
   | PDatetime => ms_ "<class 'json_to_models.dynamic_typing.string_datetime.IsoDatetimeString'>"
   end.
-(* str(item) *)
-Fixpoint pystr (t : ty) : str :=
+(* str(item) (r = false) and repr(item) (r = true).  Python's str(dict) shows the VALUES of the dict with repr(): a class
+   reprs like its str, a BaseType instance as "<Name [...]>" (the inside again with str), Null / Unknown — which define
+   __str__ only — with the default object repr "<module.Class object at 0x...>" (the address is not modelled: two keys that
+   agree up to it agree on the object as well, it is one singleton). *)
+Fixpoint pystr_ (r : bool) (t : ty) {struct t} : str :=
+  let wrap (name : str) (inner : str) : str :=
+      if r then ms_ "<" ++ name ++ ms_ " [" ++ inner ++ ms_ "]>" else name ++ ms_ "[" ++ inner ++ ms_ "]" in
   match t with
   | TInt => ms_ "<class 'int'>" | TFloat => ms_ "<class 'float'>" | TBool => ms_ "<class 'bool'>" | TStr => ms_ "<class 'str'>"
-  | TNull => ms_ "NoneType" | TUnknown => ms_ "Unknown"
+  | TNull => if r then ms_ "<json_to_models.dynamic_typing.base.NoneType object at 0x>" else ms_ "NoneType"
+  | TUnknown => if r then ms_ "<json_to_models.dynamic_typing.base.UnknownType object at 0x>" else ms_ "Unknown"
   | TPseudo p => pseudo_str p
-  | TLit o ls => ms_ "StringLiteral[" ++ (if o then ms_ "..." else join_str (ms_ ",") ls) ++ ms_ "]"
-  | TOpt x => ms_ "DOptional[" ++ pystr x ++ ms_ "]"
-  | TList x => ms_ "DList[" ++ pystr x ++ ms_ "]"
-  | TDict x => ms_ "DDict[" ++ pystr x ++ ms_ "]"
-  | TUnion ts => ms_ "DUnion[" ++ join_str (ms_ ", ") (map pystr ts) ++ ms_ "]"
-  | TObj fs => ms_ "{" ++ join_str (ms_ ", ") (map (fun kv => key_repr (fst kv) ++ ms_ ": " ++ pystr (snd kv)) fs) ++ ms_ "}"
-  | TPtr i => ms_ "ModelPtr[Model#" ++ idx_key i ++ ms_ "]"
+  | TLit o ls => wrap (ms_ "StringLiteral") (if o then ms_ "..." else join_str (ms_ ",") ls)
+  | TOpt x => wrap (ms_ "DOptional") (pystr_ false x)
+  | TList x => wrap (ms_ "DList") (pystr_ false x)
+  | TDict x => wrap (ms_ "DDict") (pystr_ false x)
+  | TUnion ts => wrap (ms_ "DUnion") (join_str (ms_ ", ") (map (pystr_ false) ts))
+  | TObj fs => ms_ "{" ++ join_str (ms_ ", ") (map (fun kv => key_repr (fst kv) ++ ms_ ": " ++ pystr_ true (snd kv)) fs) ++ ms_ "}"
+  | TPtr i => wrap (ms_ "ModelPtr") (ms_ "Model#" ++ idx_key i)
   end.
+Definition pystr (t : ty) : str := pystr_ false t.
 (* ComplexType._sort_key *)
 Definition sort_key (t : ty) : str :=
   match t with
